@@ -405,7 +405,9 @@ func flattenScenarios(tier string, seed int64, scratch string) ([]*Case, []strin
 				continue
 			}
 			nm := strings.Join(ex.Name, "")
-			if nm == "0" || nm == "1" { // plain digits: fine, but keep them distinct from list indices in diagnostics
+			if nm == "0" || nm == "1" || nm == "a" {
+				// plain digits: fine, but keep them distinct from list indices in diagnostics; "a" is also an enum VALUE of the scenario
+				// bodies (a name equal to a value would be abstracted together with it: the projection round trip refuses that)
 				nm = "n" + nm
 			}
 			fs := byKey[roleScen[i%len(roleScen)]]
